@@ -39,7 +39,7 @@ TYPES = [None, 'NONE', 'OBJECTIVE', 'CONSTRAINT', 'OBJ_OR_CON']
 
 def instances(tier, seed):
     out = []
-    for perm, has_dir, has_ref, ty in itertools.product((True, False), (True, False), (True, False), TYPES):
+    for perm, has_dir, has_ref, ty in itertools.product((True, False, 'nested'), (True, False), (True, False), TYPES):
         out.append(dict(label=f'classify perm={perm} dir={has_dir} ref={has_ref} type={ty}', kind='classify',
                         perm=perm, has_dir=has_dir, has_ref=has_ref, type=ty))
     for arch in (0, 1):
@@ -54,12 +54,19 @@ def _mtype(name):
 
 
 def _mk_classify_graph(perm, d, r, ty):
+    """perm: True = under the start node; False = under option B of a choice; 'nested' = under a node X that option A
+    derives directly and option B only through one option of a nested choice (X is missing from architecture B/Y)"""
     from adsg_core import BasicDSG, NamedNode, MetricNode
     g = BasicDSG()
     root, a, b = NamedNode('R'), NamedNode('A'), NamedNode('B')
     m = MetricNode('M', direction=d, ref=r, type_=_mtype(ty))
     g.add_selection_choice('C', root, [a, b])
-    g.add_edges([(root if perm else b, m)])
+    if perm == 'nested':
+        x, y = NamedNode('X'), NamedNode('Y')
+        g.add_edges([(a, x), (x, m)])
+        g.add_selection_choice('C1', b, [x, y])
+    else:
+        g.add_edges([(root if perm else b, m)])
     g = g.set_start_nodes({root})
     return g, m
 
@@ -85,7 +92,7 @@ def _expected(perm, has_dir, has_ref, ty):
     """documented contract -> 'obj' | 'con' | 'none' | 'error'"""
     if ty == 'NONE':
         return 'none'
-    can_obj = has_dir and perm
+    can_obj = has_dir and perm is True
     can_con = has_dir and has_ref
     if can_obj and can_con:
         if ty == 'OBJECTIVE':
